@@ -600,7 +600,7 @@ class _Unmarshaller:
     def load_unicode(self):
         n = self.r_long()
         s = self._read(n)
-        ret = s.decode("utf8")
+        ret = s.decode("utf8", "surrogatepass")
         return ret
 
     dispatch[TYPE_UNICODE] = load_unicode
@@ -929,7 +929,7 @@ class _FastUnmarshaller:
     def load_unicode(self):
         n = _r_long(self)
         s = _read(self, n)
-        ret = s.decode("utf8")
+        ret = s.decode("utf8", "surrogatepass")
         return ret
 
     dispatch[TYPE_UNICODE] = load_unicode
